@@ -26,8 +26,8 @@ COMPONENTS = {
     "stub": ["network", "clocks and timers", "application script", "server front-end (accept on first Initial)"],
 }
 PLAN = {
-    "quick": {"budget_s": 60, "max_runs": 1000000, "variants": ["faulty", "faulty", "faulty", "fault_free"]},
-    "thorough": {"budget_s": 900, "max_runs": 100000000, "variants": ["faulty", "faulty", "faulty", "fault_free"]},
+    "quick": {"budget_s": 60, "max_runs": 1000000, "variants": ["faulty", "faulty", "rebind_storm", "fault_free"]},
+    "thorough": {"budget_s": 900, "max_runs": 100000000, "variants": ["faulty", "faulty", "rebind_storm", "fault_free"]},
 }
 
 
@@ -128,6 +128,9 @@ class C01Oracle(Oracle):
 PROFILES = {
     "faulty": {"faults": ("drop", "dup", "delay", "blackout", "rebind", "timer-late", "clock"), "retry_p": 0.15,
                "allow_vn": True},
+    # many address changes in one connection: every new path gets its own PATH_CHALLENGE, responses may be late
+    "rebind_storm": {"faults": ("drop", "dup", "delay", "rebind", "timer-late"), "max_rebinds": 10, "rebind_mean": 5.0, "rebind_burst": True,
+                     "rebind_old_alive_p": 0.6},
     "fault_free": {"fault_free": True},
 }
 
